@@ -269,6 +269,10 @@ fn main() {
             // vh seedsearch <N> <start> <count> <outfile>
             seeds::search(args[2].parse().unwrap(), args[3].parse().unwrap(), args[4].parse().unwrap(), &args[5]);
         }
+        "hashsearch" => {
+            // vh hashsearch <start> <count> <outfile>
+            seeds::hashsearch(args[2].parse().unwrap(), args[3].parse().unwrap(), &args[4]);
+        }
         "fgsearch" => {
             // vh fgsearch <N> <start> <count> <outfile>
             seeds::fgsearch(args[2].parse().unwrap(), args[3].parse().unwrap(), args[4].parse().unwrap(), &args[5]);
